@@ -27,7 +27,7 @@ def ncf2landuse(ncffile, outpath):
 
     outfile = open(outpath, 'wb')
     keys = [key
-            for key in ['FLAND', 'VAR1', 'LAI', 'TOPO', 'LUCAT11', 'LUCAT26']
+            for key in ['FLAND', 'LUCAT11', 'LUCAT26', 'VAR1', 'LAI', 'TOPO']
             if key in ncffile.variables.keys()]
 
     ludts = {'FLAND': _fland_dtype,
